@@ -5,6 +5,7 @@ package props
 import (
 	"fmt"
 	"math"
+	"reflect"
 	"strings"
 	"testing"
 	"time"
@@ -112,6 +113,11 @@ func c05Drive(rt *rapid.T, w *c05World, exec func(sdk.Msg) string, boundary func
 			}
 			m := newMsgOf(w.c, url)
 			fillMsg(rt, m, w.env, nil)
+			if rapid.IntRange(0, 7).Draw(rt, "upperCaseCreator") == 0 {
+				if f := reflect.ValueOf(m).Elem().FieldByName("Creator"); f.IsValid() {
+					f.SetString(strings.ToUpper(f.String()))
+				}
+			}
 			w.logf("%s -> %s", msgSummary(m), exec(m))
 			w.refreshEnv()
 		},
@@ -168,8 +174,12 @@ func c05Drive(rt *rapid.T, w *c05World, exec func(sdk.Msg) string, boundary func
 			if err != nil {
 				item, hl, _ = f.honestProof(0)
 			}
-			m := &storagetypes.MsgPostProof{Creator: a.Bech, Item: item, HashList: hl, Merkle: f.Merkle, Owner: f.Owner, Start: f.Start, ToProve: ch}
-			w.logf("PostProof by %s for %s chunk %d -> %s", short(a.Bech), f.id(), ch, exec(m))
+			creator := a.Bech
+			if rapid.IntRange(0, 4).Draw(rt, "upperCaseCreator") == 0 {
+				creator = strings.ToUpper(a.Bech) // a valid spelling of the same account; the signature check works on the decoded address
+			}
+			m := &storagetypes.MsgPostProof{Creator: creator, Item: item, HashList: hl, Merkle: f.Merkle, Owner: f.Owner, Start: f.Start, ToProve: ch}
+			w.logf("PostProof by %s (creator spelled %q…) for %s chunk %d -> %s", short(a.Bech), creator[:6], f.id(), ch, exec(m))
 		},
 		"boundary": func(rt *rapid.T) { fail(boundary(rt)) },
 	})
